@@ -25,6 +25,9 @@ var zzCfgsQuick = []zzCfg{
 	// Go's random map iteration order (which decides the order of flushed headers and so the LRU contents)
 	{512, 1, 0, 1},
 	{512, 64, 1, 1},
+	// context-aware datastore with snapshot read transactions and a flush per header: a header leaves the
+	// write batch as soon as it is appended, so a reader only finds it through the datastore
+	{512, 1, 1, 1},
 }
 
 func zzPickCfg() zzCfg {
